@@ -28,6 +28,13 @@ Inv_Native == (~M.err /\ ~I.raised) => \A v \in Vars : (M.nat[v] # Undef => I.fi
 \* a program the code accepts although the mechanism spec refuses it must still be right
 Inv_NativeAnyway == (M.err /\ ~I.raised) => \A v \in Vars : (M.nat[v] # Undef /\ I.final[v] # Undef => I.final[v] = M.nat[v])
 
+\* C08 on the block API: while the condition of an _elif is evaluated the previous arm's region has ended -- the active guard is
+\* the conjunction of the ENCLOSING conditions only (I.probes: the guard value the code reported at each of these moments)
+ElifIdx == {k \in DOMAIN M.hist : M.hist[k].a = "elif"}
+RECURSIVE ElifGuards(_)
+ElifGuards(k) == IF k > Len(M.hist) THEN <<>> ELSE (IF M.hist[k].a = "elif" THEN <<M.hist[k].g>> ELSE <<>>) \o ElifGuards(k + 1)
+Inv_ElifGuard == (~M.err /\ ~I.raised) => I.probes = ElifGuards(1)
+
 \* conformance with the mechanism (drift)
 Inv_Conf == (I.raised = M.err) /\ (~M.err => \A v \in Vars : I.final[v] = M.vals[v])
 =============================================================================
